@@ -1113,6 +1113,9 @@ pub fn run(ctx: &Ctx) -> (Vec<Case>, String, bool, BTreeMap<String, String>) {
         all.push(st);
     }
     virtio_drivers::verif_hooks::set_spin_hook(None);
-    let rule = "real VirtIOBlk on ModelTransport+LedgerHal (bouncing) against a spec-written reference block device with an in-memory disk. Stream `blk`: random feature sets (RO, FLUSH, INDIRECT, EVENT_IDX, VERSION_1, ACCESS_PLATFORM + unknown bits), capacity words, then 10..40 (quick) / 10..90 (thorough) operations: non-blocking reads/writes up to and beyond a queue-full (5 direct / 16 indirect), device completions of a randomly chosen pending request with a random status byte (0,1,2,3 biased, all 256 possible) and used length, peek_used, complete_* of the head or of a wrong token, blocking read/write/flush/device_id when idle; sectors in range, at the end of the disk, beyond it and anywhere in 64 bits; lengths 1..8 (24) sectors. Stream `blk-malformed`: the same plus invalid lengths (0, non-multiples of 512: panic expected) and blocking calls while an older completion is unconsumed (WrongToken). Stream `blk-status`: all 256 status bytes x {write, read, flush, id, non-blocking read} (complete enumeration of the status byte). Non-trivial = at least one request completed with status OK and its data verified against the generator's shadow disk.".to_string();
+    // capacity under a configuration that changes while `new` reads it (C13's untorn stream, block
+    // driver only, on the model, MMIO and PCI transports): the capacity must be one the device exposed
+    all.extend(crate::runner::par_cases(ctx, "C14", "blk-capacity-untorn", 9, |i, id| crate::c13_config::consistent_case(ctx, (i % 3) * 5 + (i / 3) * 15, id)));
+    let rule = "real VirtIOBlk on ModelTransport+LedgerHal (bouncing) against a spec-written reference block device with an in-memory disk. Stream `blk`: random feature sets (RO, FLUSH, INDIRECT, EVENT_IDX, VERSION_1, ACCESS_PLATFORM + unknown bits), capacity words, then 10..40 (quick) / 10..90 (thorough) operations: non-blocking reads/writes up to and beyond a queue-full (5 direct / 16 indirect), device completions of a randomly chosen pending request with a random status byte (0,1,2,3 biased, all 256 possible) and used length, peek_used, complete_* of the head or of a wrong token, blocking read/write/flush/device_id when idle; sectors in range, at the end of the disk, beyond it and anywhere in 64 bits; lengths 1..8 (24) sectors. Stream `blk-malformed`: the same plus invalid lengths (0, non-multiples of 512: panic expected) and blocking calls while an older completion is unconsumed (WrongToken). Stream `blk-status`: all 256 status bytes x {write, read, flush, id, non-blocking read} (complete enumeration of the status byte). Stream `blk-capacity-untorn`: VirtIOBlk::new while the device replaces its configuration (bumping the generation) at every point / pair of points of the capacity read, on the model, MMIO and PCI transports: capacity() must be a value the device exposed under one generation. Non-trivial = at least one request completed with status OK and its data verified against the generator's shadow disk (capacity stream: a capacity was returned).".to_string();
     (all, rule, false, BTreeMap::new())
 }
